@@ -6,6 +6,7 @@ package erasurecoding
 //
 // C15 / C17 (BOUNDED stand-in, never counted as proved): the law is stated in zz_spec_verif.go over the real store.
 //@ func verifECFaultTolerance
+//@ property C01 C15 C17
 //@ mode nosafety
 //@ bounded 2500
 //@ ensures[C17:parity-many-faults-tolerated-more-never-lie] result
